@@ -1854,6 +1854,18 @@ def std_model(I, p, fr, t, args):
     return NotImplemented
 
 
+def sole_int(v, name="val"):
+    """the integer inside a one-field wrapper (an `Immediate { val }`): the field called `name`, or the only field when the wrapper has
+    exactly one (the field may have been renamed); an integer is returned as it is"""
+    if isinstance(v, Adt):
+        if name in v.fields:
+            return v.fields[name]
+        if len(v.fields) == 1:
+            return next(iter(v.fields.values()))
+        return None
+    return v
+
+
 def tri_eq(a, b, I=None):
     """three-valued structural equality: True / False / None (unknown); references inside values (`Some(&x)`) compare by what they
     point to, as Rust's PartialEq does"""
